@@ -138,7 +138,8 @@ void aws_cbor_encoder_write_float(struct aws_cbor_encoder *encoder, double value
         return;
     }
     /* Conversation from int to floating-type is implementation defined if loss of precision */
-    if (value <= (double)INT64_MAX && value >= (double)INT64_MIN) {
+    /* (double)INT64_MAX rounds up to 2^63, which int64_t cannot represent: the upper bound must be strict */
+    if (value < (double)INT64_MAX && value >= (double)INT64_MIN) {
         /**
          * A prvalue of a floating point type can be converted to a prvalue of an integer type. The conversion
          * truncates; that is, the fractional part is discarded. The behavior is undefined if the truncated value cannot
